@@ -8,7 +8,7 @@
   (kernel `Lin.runEvs_rename` shared with C07's `C07_rename_assembled`).
 -/
 import Gama.Props.C14
-import Gama.Lemmas.RevisePhysicalFull
+import Gama.Lemmas.RevisePhysicalRevise
 namespace Gama.Props.C14
 open Gama Gama.Lin
 
@@ -67,15 +67,15 @@ theorem C14_pe_inner_call_equals_physical_deletion [TrigScalar K] (net : PE.Net 
     numbering give the same verdict / count / list: `RevPE.singularFrom_physDel`, `countFrom_physDel`,
     `fillFrom_physDel`), hence **for every algorithm the same exception or the same answer field by field**.
 
-    `_partial` — exactly what is still missing:
-    (1) hypothesis `hrev'`: `PE.revise (physDel net) = physDel net` (`MinX.isRevised` under the renaming: the
-        needs test is `getElem?_filter_gmap`; the stand-point rule needs `(dirTargets …).eraseDups` under an
-        injective map of the targets) — NOT proved, carried;
-    (2') the table `unknowns_` (`u'.list`) is not compared: it is `u.list` with the stand-point cluster numbers
-        relabelled (`oriLoop`/`ptLoop` under the relabelling not proved); `pocet_neznamych_` is (`u'.n`).
+    Round 13, last item: the hypothesis `hrev'` (revision stable on the physically deleted network) is now a
+    theorem (`C14_pe_revision_stable_physical`) and no longer appears.  The name keeps its `_partial` suffix as an
+    ALIAS of record (round 12/13 reports cite it); the statement from an arbitrary network is
+    `C14_pe_solution_equals_physical_deletion`.  Not in the statement: the table `unknowns_` (`u'.list` is
+    `u.list` with the stand-point cluster numbers relabelled; `oriLoop`/`ptLoop` under the relabelling are not
+    proved) — `pocet_neznamych_` (`u'.n`) is.
     A removed point LEFT in the file as free: example `corFree` (second inner call, same answers). -/
 theorem C14_pe_solution_equals_physical_deletion_partial [TrigScalar K] (net : PE.Net K)
-    (hst : PE.revise net = net) (hrev' : PE.revise (RevPE.physDel net) = RevPE.physDel net)
+    (hst : PE.revise net = net)
     (a : PE.Asm K) (ha : PE.assemble net = .ok a) (hh : Ls.Net.Hom K) (hprep : Ls.Net.prepare a.np = .ok hh)
     (hsc : (SingularCoords.singularCoords hh.Ad (PE.idxFn a.idx) (PE.ptsOf net)).1 = false) :
     PE.projectEquations net =
@@ -87,7 +87,40 @@ theorem C14_pe_solution_equals_physical_deletion_partial [TrigScalar K] (net : P
       u'.net.clusters = (RevPE.physDel net).clusters ∧
       ∀ alg : Ls.Alg, Ls.Net.netSolve alg np' =
         Ls.Net.netSolve alg { a.np with minx := (MinX.feed (PE.idxFn a.idx) (PE.ptsOf net)).2 } :=
-  RevPE.pe_physDel net hst hrev' a ha hh hprep hsc
+  RevPE.pe_physDel net hst (RevPE.revise_physDel net hst) a ha hh hprep hsc
+
+/-- **Item (1): the revision is stable on the physically deleted network.**  For every network on which
+    `revision_observations()` changes nothing, it changes nothing on the network with the unused points and the
+    emptied clusters physically removed: the needs test reads the same `active` bit at the new position of a
+    kept point (and `false` on both sides at a dropped / absent one), the single-direction rule counts
+    `eraseDups` of the targets, whose length is invariant under the injective renaming. -/
+theorem C14_pe_revision_stable_physical [Zero K] (net : PE.Net K) (hst : PE.revise net = net) :
+    PE.revise (RevPE.physDel net) = RevPE.physDel net :=
+  RevPE.revise_physDel net hst
+
+/-- **Results equal those for the input with the excluded items PHYSICALLY deleted — the whole call, from an
+    arbitrary network, every algorithm.**  `projectEquations net0 = .ok (np, u)`.  The excluded items are what
+    `u.net` shows (passive observations, points `singular_coords` switched off).  The input with these items
+    physically deleted is `physDel { delObs u.net with idx := idx0 }`: the passive observations gone with
+    their rows/columns of the covariance matrices (`delObs`, round 8), then the points without an active group
+    and the clusters left without observations REMOVED from `PD` / `OD` and every remaining observation and
+    stand-point renamed to the new positions (`physDel`), arbitrary stale index fields.  The call on it
+    succeeds in one inner call, removes nothing, leaves exactly those points and clusters, hands the solvers the
+    same `m, n`, rows, `rhs_`, `min_x_`, cofactor blocks, and **for every algorithm `netSolve alg np' =
+    netSolve alg np`**: the same exception or the same answer field by field (x, residuals of the active
+    observations, pvv, defect, cofactor accessors).
+    Not in the statement: the table `unknowns_` (`u'.list`; it is `u.list` with the stand-point cluster numbers
+    relabelled — `oriLoop`/`ptLoop` under the relabelling not proved; `pocet_neznamych_` is compared).
+    Outside (stated, evaluated): a removed point LEFT in the file as free — example `corFree`. -/
+theorem C14_pe_solution_equals_physical_deletion [TrigScalar K] (net0 : PE.Net K) (np : Ls.Net.NetProblem K)
+    (u : PE.Unknowns K) (h : PE.projectEquations net0 = .ok (np, u)) (idx0 : Lin.IdxState) :
+    ∃ np' u', PE.projectEquations (RevPE.physDel { RevPE.delObs u.net with idx := idx0 }) = .ok (np', u') ∧
+      (∀ alg : Ls.Alg, Ls.Net.netSolve alg np' = Ls.Net.netSolve alg np) ∧
+      np'.m = np.m ∧ np'.n = np.n ∧ np'.rows = np.rows ∧ np'.rhs = np.rhs ∧ np'.minx = np.minx ∧
+      Ls.Net.cofs np' = Ls.Net.cofs np ∧ u'.n = u.n ∧ u'.removed = [] ∧
+      u'.net.points = (RevPE.physDel ({ RevPE.delObs u.net with idx := idx0 } : PE.Net K)).points ∧
+      u'.net.clusters = (RevPE.physDel ({ RevPE.delObs u.net with idx := idx0 } : PE.Net K)).clusters :=
+  RevPE.pe_physically_deleted net0 np u h idx0
 
 /-! ### non-vacuity -/
 
@@ -140,6 +173,17 @@ example : RevPE.RolesKept phNet := by
     refine ⟨fun i hi => ?_, ⟨_, rfl, rfl⟩⟩ <;>
     simp only [List.mem_cons, List.not_mem_nil, or_false] at hi <;>
     rcases hi with rfl | rfl | rfl <;> exact ⟨_, rfl, rfl⟩
+
+attribute [local instance] PE.Ex.trigQ in
+/-- `C14_pe_solution_equals_physical_deletion` on round 8's `corNet` (tridiagonal block, one observation off, a
+    cluster emptied by the revision): the physically deleted input has ONE cluster (`CovMat(3,1)`), and the whole
+    call on it gives the answers of the call on `corNet` -/
+example : ((leftNet (PE.projectEquations corNet)).map fun n =>
+      (RevPE.physDel { RevPE.delObs n with idx := ⟨0, []⟩ }).clusters.map fun c => c.cov.buf.toList) =
+    some [[4, 1, 4, 0, 4]] := by decide +kernel
+attribute [local instance] PE.Ex.trigQ in
+example : answerOf .env (PE.projectEquations (RevPE.physDel corDel)) = answerOf .env (PE.projectEquations corNet) := by
+  decide +kernel
 
 /-- **second limitation, evaluated**: `corDel` with a point `D` whose xy group is free and which no observation
     names (a point `singular_coords` removed, left in the file with its status) -/
